@@ -5,7 +5,38 @@ Measured, not proved (harness/cmd/c16): heap allocations of the real ServeHTTP a
 Escape analysis, sync.Pool retention across GC cycles and the allocator are Go-runtime behaviour
 that no Gallina model exhibits.
 """
+import os
+
+import lib
 from lib import TieCheck
+
+# add-only hook (build tag verif) the harness needs since round 7: which tree owns a context. /repo holds a copy
+# (/repo/verif_c16_owner.go); a scratch tree under test created from the last commit of /repo may not have it yet,
+# so the check installs it there (a new file, nothing existing is touched).
+OWNER_HOOK = "verif_c16_owner.go"
+OWNER_HOOK_SRC = '''//go:build verif
+
+// Read-only hook for the C16 verification harness in /verif (allocation-free
+// routing): which tree owns a context. Only compiled with -tags verif; touches
+// no existing code. (The master copy lives in /verif/checks/C16.py, which
+// installs it into a scratch tree under test that does not have it yet.)
+
+package fox
+
+// VerifCtxOwner reports about a context handed out by this router (to a
+// handler by ServeHTTP, by Lookup, by CloneWith): whether the tree it belongs
+// to (c.tree: the tree whose pool it was taken from and whose maxParams /
+// depth sized its buffers in allocateContext) is the tree currently published,
+// and the current capacities of its three buffers. ok is false for a Context
+// that is not a router context. It allocates nothing.
+func (fox *Router) VerifCtxOwner(c Context) (owned bool, params, tsrParams, skipNds int, ok bool) {
+	cc, is := c.(*cTx)
+	if !is || cc == nil {
+		return
+	}
+	return cc.tree == fox.getRoot(), cap(*cc.params), cap(*cc.tsrParams), cap(*cc.skipNds), true
+}
+'''
 
 
 class C16(TieCheck):
@@ -16,7 +47,7 @@ class C16(TieCheck):
     extra_props = [("Compose", "Props_Compose2.v")]
     harness = "c16"
     # shared area: build only this property's closure (Node Lookup Tree Alloc Alloc2 Props_C16)
-    coq_targets = ["Alloc.vo", "Alloc2.vo"]
+    coq_targets = ["Alloc.vo", "Alloc2.vo", "AllocHist.vo", "AllocHist2.vo"]
     extra_trust = [
         "model: coq/Route/Alloc.v = M1 (coq/Route/Lookup.v, transliteration of lookupByPath / lookupByDomain / roots.lookup, node.go:85-600) "
         "with one accumulator for the high-water marks of len(params), len(tsrParams), len(skipNds) over the main context and all sub-contexts; "
@@ -25,6 +56,10 @@ class C16(TieCheck):
         "and the capacity afterwards is at least that length and persists in the pooled context (trusted reading of the Go spec/runtime; "
         "tested two-sidedly per buffer on every cold run through fox.VerifCtxCaps)",
         "add-only hook /repo/verif_c16.go (build tag verif): reads cap(params), cap(tsrParams), cap(skipNds) of the pooled contexts of the published tree",
+        "add-only hook /repo/verif_c16_owner.go (build tag verif): for a context handed to a handler, whether its tree (c.tree) is the published tree, and its three capacities; "
+        "asked on every handler call of every case (AllocHist.x_handed_ok: owned, and at least as large as allocateContext of the routed tree makes it)",
+        "history scenarios: the writes are issued by the harness in one goroutine (no concurrent writer); 'in flight across a write' is produced by holding a Lookup / Txn.Lookup / CloneWith "
+        "context or an Iter over a Handle / Update / Delete / committed or aborted transaction and closing it afterwards (or before: control)",
         "allocation counts: runtime.MemStats.Mallocs deltas around ServeHTTP (GOMAXPROCS 1, GC disabled, minimum of 3 repetitions of 10 calls after 8 warm-up calls) "
         "with an allocation-free handler / ResponseWriter and a pre-built *http.Request: a measurement, bounded by the generators, not a proof",
     ]
@@ -32,7 +67,8 @@ class C16(TieCheck):
         "PARTIAL: no theorem speaks about heap allocation itself; escape analysis, inlining, sync.Pool hit rate (the pool is emptied by two GC cycles and is per-P), "
         "and the allocator are runtime behaviour outside the model. The theorems cover only the buffer logic: how long the three per-context slices get",
         "steady state = the request (or any request with marks at least as high) has been served before by every pooled context that takes part, and no GC cycle has "
-        "dropped the pool since; the handler, the ResponseWriter and middleware are allocation-free (the harness registers none)",
+        "dropped the pool since; the handler, the ResponseWriter and middleware are allocation-free (the harness registers none, "
+        "except in the history scenarios, which are measured on a plain router and on one whose only middleware hands on a CloneWith copy, documented as allocation free)",
         "the stripped host is an oracle input of the model (netutil.StripHostPort, modelled and checked in properties C09/C01)",
         "params_bounded assumes the tree invariant 'no root-to-leaf path holds more wildcards than maxParams' (wroots <= t_maxparams): proved preserved by Tree.insert "
         "(insert_keeps_wroots) when psLen is the number of wildcards of the pattern, and evaluated on every dumped tree by the case files (a_bounds_ok)",
@@ -40,6 +76,16 @@ class C16(TieCheck):
 
     def harness_args(self, tier):
         return ["tier=" + tier]
+
+    def gen(self, tier):
+        dst = os.path.join(lib.REPO, OWNER_HOOK)
+        if not os.path.exists(dst):
+            try:
+                with open(dst, "w") as fh:
+                    fh.write(OWNER_HOOK_SRC)
+            except OSError as ex:
+                return False, "cannot install %s: %s" % (dst, ex)
+        return True, ""
 
 
 CHECK = C16()
